@@ -294,6 +294,10 @@ func (in *Interp) jsonAssign2(dst *Value, dt types.Type, dStr bool, src Value, s
 	case "number", "numstr":
 		// numeric range: widths must agree for an exact model
 		s, d := src.(Term), in.zero(dt).(Term)
+		if s.S == SInt {
+			*dst = s
+			return ""
+		}
 		if s.W != d.W || isSigned(st) != isSigned(dt) {
 			// value must fit: model as conversion with an overflow error fork
 			conv := bvConv(s, d.W, isSigned(st))
